@@ -217,6 +217,20 @@ def _():
     return (lambda: lib('torch.sub')(FR, *lib('torch.chunk')(FR, wrap(a), 2))), (lambda: torch.sub(*torch.chunk(a, 2)))
 
 
+@case('torch.nn.functional.conv1d')
+def _():
+    N, C, Lx, Oc, K = RNG.randint(1, 2), RNG.randint(1, 3), RNG.randint(1, 5), RNG.randint(1, 2), RNG.randint(1, 4)
+    x, w_ = rt(N, C, Lx, kind='real'), rt(Oc, RNG.choice([C, C, C + 1]), K, kind='real')
+    return (lambda: lib('torch.nn.functional.conv1d')(FR, wrap(x), wrap(w_))), (lambda: torch.nn.functional.conv1d(x, w_))
+
+
+@case('int ** arange')
+def _():
+    n, k = RNG.randint(1, 4), RNG.randint(1, 4)
+    a = torch.arange(k)
+    return (lambda: lib('binop')(FR, 'Pow', n, wrap(a))), (lambda: n ** a)
+
+
 @case('torch.maximum')
 def _():
     a, b = rt(2, 3, kind='real'), rt(2, 3, kind='real')
